@@ -1,6 +1,7 @@
 """deliberate breakage of the C11 carriers: every behaviour-changing mutant must turn a named obligation of the C11
-contracts from discharged to failed.  TEBD.sweep / step / update_to already carry failing obligations on the unchanged
-tree (gauge findings) -- the runner only counts obligations that fail IN ADDITION to the baseline set."""
+contracts from discharged to failed.  TEBD.sweep carries failing obligations on the unchanged tree (imag=True left-sweep
+renormalisation site) -- the runner only counts obligations that fail IN ADDITION to the baseline set.  Mutants that
+only move the canonical centre are caught through the imag=True cases (the gauge machinery is on only there)."""
 import os
 import re
 
